@@ -1,6 +1,6 @@
 #!/bin/bash
 # runs every quick check once with the given seed; prints one line per check
-cd /verif
+cd "$(dirname "$0")/.."
 seed=${1:-1}
 for i in 01 02 03 04 05 06 07 08 09 10 11 12 13 14 15 16 17 18 19 20; do
   s=$(date +%s)
